@@ -389,3 +389,110 @@ def s_same_keys_where_not_none(ex, args, kwargs, st, node):
 
 
 SYMBOLIC.update({"no_none_values": s_no_none_values, "same_keys_where_not_none": s_same_keys_where_not_none})
+
+
+# ---- primary response (C05) -------------------------------------------------------------------------------------------
+def _prio(code):
+    return {"200": 6, "201": 5, "202": 4, "204": 3}.get(code, 2 if isinstance(code, str) and code.startswith("2") else (1 if code == "default" else 0))
+
+
+def best_priority_response(responses, result):
+    """result is None iff there is no response; otherwise it is one of them and no response has a higher-priority status code
+    (200 > 201 > 202 > 204 > other 2xx > default > anything else)"""
+    if not responses:
+        return result is None
+    return any(result is r for r in responses) and all(_prio(r.status_code) <= _prio(result.status_code) for r in responses)
+
+
+def s_best_priority_response(ex, args, kwargs, st, node):
+    rs = ex.need(ex.as_val(args[0], st, node), "l", st, node)
+    res = ex.as_val(args[1], st, node).any()
+    from .sym import NONE
+    code = z3.Function("attr.status_code", Any, Any)
+
+    def prio(c):
+        s_ = acc("s")(c)
+        iss = recog("s")(c)
+        return z3.If(z3.And(iss, s_ == z3.StringVal("200")), 6, z3.If(z3.And(iss, s_ == z3.StringVal("201")), 5, z3.If(z3.And(iss, s_ == z3.StringVal("202")), 4,
+               z3.If(z3.And(iss, s_ == z3.StringVal("204")), 3, z3.If(z3.And(iss, z3.PrefixOf(z3.StringVal("2"), s_)), 2, z3.If(z3.And(iss, s_ == z3.StringVal("default")), 1, 0))))))
+    i = z3.Const("i!bp", z3.IntSort())
+    n = z3.Length(rs)
+    nonempty = z3.And(z3.Exists([i], z3.And(0 <= i, i < n, rs[i] == res)),
+                      z3.ForAll([i], z3.Implies(z3.And(0 <= i, i < n), prio(code(rs[i])) <= prio(code(res)))))
+    return VBool(z3.If(n == 0, res == NONE, nonempty))
+
+
+SYMBOLIC.update({"best_priority_response": s_best_priority_response})
+
+
+def codes_are_str(rs):
+    return all(isinstance(r.status_code, str) for r in rs)
+
+
+def prefix_has_no(rs, n, code):
+    return all(r.status_code != code for r in rs[:n])
+
+
+def prefix_has_no_2xx(rs, n):
+    return all(not r.status_code.startswith("2") for r in rs[:n])
+
+
+def has_none_of_preferred(rs):
+    return all(r.status_code not in ("200", "201", "202", "204") for r in rs)
+
+
+def has_no_2xx(rs):
+    return all(not r.status_code.startswith("2") for r in rs)
+
+
+def _code_terms(ex, arg, st, node):
+    rs = ex.need(ex.as_val(arg, st, node), "l", st, node)
+    code = z3.Function("attr.status_code", Any, Any)
+    i = z3.Const("i!cd", z3.IntSort())
+    return rs, code, i
+
+
+def s_codes_are_str(ex, args, kwargs, st, node):
+    rs, code, i = _code_terms(ex, args[0], st, node)
+    return VBool(z3.ForAll([i], z3.Implies(z3.And(0 <= i, i < z3.Length(rs)), recog("s")(code(rs[i])))))
+
+
+def s_prefix_has_no(ex, args, kwargs, st, node):
+    rs, code, i = _code_terms(ex, args[0], st, node)
+    n = ex.need_int(ex.as_val(args[1], st, node), st, node)
+    c = ex.as_val(args[2], st, node).any()
+    return VBool(z3.ForAll([i], z3.Implies(z3.And(0 <= i, i < n, i < z3.Length(rs)), code(rs[i]) != c)))
+
+
+def s_prefix_has_no_2xx(ex, args, kwargs, st, node):
+    rs, code, i = _code_terms(ex, args[0], st, node)
+    n = ex.need_int(ex.as_val(args[1], st, node), st, node)
+    return VBool(z3.ForAll([i], z3.Implies(z3.And(0 <= i, i < n, i < z3.Length(rs)), z3.Not(z3.PrefixOf(z3.StringVal("2"), acc("s")(code(rs[i])))))))
+
+
+def s_has_none_of_preferred(ex, args, kwargs, st, node):
+    rs, code, i = _code_terms(ex, args[0], st, node)
+    body = z3.And(*[code(rs[i]) != ctor("s")(z3.StringVal(c)) for c in ("200", "201", "202", "204")])
+    return VBool(z3.ForAll([i], z3.Implies(z3.And(0 <= i, i < z3.Length(rs)), body)))
+
+
+def s_has_no_2xx(ex, args, kwargs, st, node):
+    rs, code, i = _code_terms(ex, args[0], st, node)
+    return VBool(z3.ForAll([i], z3.Implies(z3.And(0 <= i, i < z3.Length(rs)), z3.Not(z3.PrefixOf(z3.StringVal("2"), acc("s")(code(rs[i])))))))
+
+
+SYMBOLIC.update({"codes_are_str": s_codes_are_str, "prefix_has_no": s_prefix_has_no, "prefix_has_no_2xx": s_prefix_has_no_2xx,
+                 "has_none_of_preferred": s_has_none_of_preferred, "has_no_2xx": s_has_no_2xx})
+
+
+def all_objects(xs):
+    return all(x is not None and not isinstance(x, (str, int, float, bool, list, dict, set)) for x in xs)
+
+
+def s_all_objects(ex, args, kwargs, st, node):
+    l = ex.need(ex.as_val(args[0], st, node), "l", st, node)
+    i = z3.Const("i!ao", z3.IntSort())
+    return VBool(z3.ForAll([i], z3.Implies(z3.And(0 <= i, i < z3.Length(l)), recog("o")(l[i]))))
+
+
+SYMBOLIC.update({"all_objects": s_all_objects})
